@@ -220,7 +220,7 @@ func newRaceReports() []raceReport {
 		}
 		if len(tops) == 2 {
 			isMap := func(s string) bool {
-				return strings.HasPrefix(s, "runtime.map") || strings.HasPrefix(s, "internal/runtime/maps.")
+				return strings.HasPrefix(s, "runtime.map") || strings.HasPrefix(s, "internal/runtime/maps.") || strings.HasPrefix(s, "reflect.map") || strings.HasPrefix(s, "reflect.(*MapIter)")
 			}
 			r.MapVsMap = isMap(tops[0]) && isMap(tops[1]) && (kinds[0] == "write" || kinds[1] == "write")
 		}
